@@ -2061,11 +2061,16 @@ event_base_loop(struct event_base *base, int flags)
 
 		/* Invoke prepare watchers before polling for events */
 		prepare_info.timeout = tv_p;
-		TAILQ_FOREACH(watcher, &base->watchers[EVWATCH_PREPARE], next) {
+		for (watcher = TAILQ_FIRST(&base->watchers[EVWATCH_PREPARE]); watcher; ) {
+			base->watcher_running = watcher;
 			EVBASE_RELEASE_LOCK(base, th_base_lock);
 			(*watcher->callback.prepare)(watcher, &prepare_info, watcher->arg);
 			EVBASE_ACQUIRE_LOCK(base, th_base_lock);
+			/* the callback may have freed this watcher */
+			watcher = base->watcher_running ?
+			    TAILQ_NEXT(watcher, next) : base->watcher_next;
 		}
+		base->watcher_running = base->watcher_next = NULL;
 
 		clear_time_cache(base);
 
@@ -2082,11 +2087,16 @@ event_base_loop(struct event_base *base, int flags)
 
 		/* Invoke check watchers after polling for events, and before
 		 * processing them */
-		TAILQ_FOREACH(watcher, &base->watchers[EVWATCH_CHECK], next) {
+		for (watcher = TAILQ_FIRST(&base->watchers[EVWATCH_CHECK]); watcher; ) {
+			base->watcher_running = watcher;
 			EVBASE_RELEASE_LOCK(base, th_base_lock);
 			(*watcher->callback.check)(watcher, &check_info, watcher->arg);
 			EVBASE_ACQUIRE_LOCK(base, th_base_lock);
+			/* the callback may have freed this watcher */
+			watcher = base->watcher_running ?
+			    TAILQ_NEXT(watcher, next) : base->watcher_next;
 		}
+		base->watcher_running = base->watcher_next = NULL;
 
 		timeout_process(base);
 
